@@ -2,7 +2,7 @@
 From Coq Require Import ZArith Reals List Lra Lia.
 From Flocq Require Import Core.Raux.
 From EG Require Import Num.Num Num.RNum Lib.Vec Model.TolMap Model.Curve Model.Portion.
-From EG Require Import Proofs.Curve Proofs.Portion Proofs.PortionMore.
+From EG Require Import Proofs.Curve Proofs.Portion Proofs.PortionMore Proofs.EdgeSub.
 Import ListNotations.
 Local Open Scope R_scope.
 
@@ -97,3 +97,22 @@ Theorem C04_split_pieces : forall (V : @VOps RNum), VLaws V -> forall (c : curve
     path_len V (st_point V sl) (map (vtx V c) (seq (S (st_index V sl)) (st_index V sL - st_index V sl)) ++ [st_point V sL]) = clength V c.
 Proof. exact split_pieces. Qed.
 Print Assumptions C04_split_pieces.
+
+(* a consumer of the portions (airfoil::helpers::extract_edge_sub_curve, from the arc lengths of the two ray ends): on an open curve
+   one of the two orders is ill-posed and yields nothing, the extraction falls through to the other, and the result is the same
+   whichever way the spanning ray points: the piece between the smaller and the larger arc length when it is shorter than the
+   stated fraction of the perimeter, nothing otherwise *)
+Theorem C04_edge_portion_open : forall (V : @VOps RNum), VLaws V -> forall (c : curve V), WF V c ->
+  forall la lb frac, cclosed V c = false -> la < lb ->
+  edge_sub V c la lb frac = one_order V c la lb frac /\ edge_sub V c lb la frac = one_order V c la lb frac.
+Proof. intros V L c W la lb frac Hc Hl. split; [apply edge_sub_open_forward | apply edge_sub_open_backward]; assumption. Qed.
+Print Assumptions C04_edge_portion_open.
+Theorem C04_edge_portion_symmetric : forall (V : @VOps RNum), VLaws V -> forall (c : curve V), WF V c ->
+  forall la lb frac, cclosed V c = false -> la <> lb -> edge_sub V c la lb frac = edge_sub V c lb la frac.
+Proof. exact edge_sub_open_symmetric. Qed.
+Print Assumptions C04_edge_portion_symmetric.
+(* open or closed: whatever is returned is shorter than the fraction of the perimeter *)
+Theorem C04_edge_portion_short : forall (V : @VOps RNum) (c : curve V) la lb frac q,
+  edge_sub V c la lb frac = Ok (Some q) -> clength V q < clength V c * frac.
+Proof. exact edge_sub_short. Qed.
+Print Assumptions C04_edge_portion_short.
